@@ -331,6 +331,108 @@ theorem tick_go_spec (fn : Nat) : ∀ (js : List Nat) (w : World) (acc : List Dg
       · intro hx; rw [h6 hx, hcs]
 
 
+/-! ### data datagrams -/
+
+/-- `recv_data_msg` of transceiver `i` accepts the datagram `d` as the message `msg`: it parses
+(first `dataRecvSize` octets), carries the configured header version, and `i` is running -/
+def Accepts (w : World) (i : Nat) (d : List Nat) (msg : Trxd.TxMsg) : Prop :=
+  ∃ trx, w.trxs[i]? = some trx ∧
+    Trxd.TxMsg.parseMsg (d.take Gen.World.dataRecvSize) = .ok msg ∧ msg.ver = trx.hdrVer ∧ trx.running = true
+
+theorem Accepts.unique {w : World} {i : Nat} {d : List Nat} {m1 m2 : Trxd.TxMsg}
+    (h1 : Accepts w i d m1) (h2 : Accepts w i d m2) : m1 = m2 := by
+  obtain ⟨_, _, p1, _⟩ := h1
+  obtain ⟨_, _, p2, _⟩ := h2
+  rw [p1] at p2; cases p2; rfl
+
+/-- an accepted datagram is appended to the queue of `i`; nothing else happens -/
+theorem recvDataMsg_accept {w : World} {i : Nat} {d : List Nat} {msg : Trxd.TxMsg} (h : Accepts w i d msg) :
+    recvDataMsg w i d = { world := setTrx w i (fun t => { t with txQueue := t.txQueue ++ [msg] }) } := by
+  obtain ⟨trx, ht, hp, hv, hr⟩ := h
+  unfold recvDataMsg
+  simp only [ht, hp, hv, hr, ne_eq, not_true_eq_false, if_false]
+
+/-- a datagram that is not accepted changes nothing at all -/
+theorem recvDataMsg_reject {w : World} {i : Nat} {d : List Nat} (h : ¬ ∃ msg, Accepts w i d msg) :
+    (recvDataMsg w i d).world = w ∧ (recvDataMsg w i d).out = [] ∧ (recvDataMsg w i d).stale = 0 := by
+  unfold recvDataMsg
+  split
+  · exact ⟨rfl, rfl, rfl⟩
+  next trx ht =>
+  simp only []
+  split
+  · exact ⟨rfl, rfl, rfl⟩
+  next msg hp =>
+  split
+  · exact ⟨rfl, rfl, rfl⟩
+  next hv =>
+  split
+  · exact ⟨rfl, rfl, rfl⟩
+  next hr =>
+  exfalso
+  apply h
+  refine ⟨msg, trx, ht, hp, ?_, ?_⟩
+  · exact Decidable.of_not_not hv
+  · simpa using hr
+
+/-- effect of a data datagram on the queues and power states -/
+theorem recvDataMsg_queue (w : World) (i : Nat) (d : List Nat) (k : Nat) :
+    runningOf (recvDataMsg w i d).world k = runningOf w k ∧
+    ((queueOf (recvDataMsg w i d).world k = queueOf w k ∧ ¬ (k = i ∧ ∃ msg, Accepts w i d msg)) ∨
+     (k = i ∧ ∃ msg, Accepts w i d msg ∧ queueOf (recvDataMsg w i d).world k = queueOf w k ++ [msg])) := by
+  by_cases h : ∃ msg, Accepts w i d msg
+  · obtain ⟨msg, hm⟩ := h
+    rw [recvDataMsg_accept hm]
+    obtain ⟨trx, ht, hrest⟩ := hm
+    have hm : Accepts w i d msg := ⟨trx, ht, hrest⟩
+    by_cases e : i = k
+    · subst e
+      refine ⟨?_, .inr ⟨rfl, msg, hm, ?_⟩⟩
+      · rw [runningOf_setTrx, if_pos rfl, ht]; simp only [runningOf, ht]
+      · rw [queueOf_setTrx, if_pos rfl, ht]; simp only [queueOf, ht]
+    · refine ⟨?_, .inl ⟨?_, fun hh => e hh.1.symm⟩⟩
+      · rw [runningOf_setTrx, if_neg e]
+      · rw [queueOf_setTrx, if_neg e]
+  · rw [(recvDataMsg_reject h).1]
+    exact ⟨rfl, .inl ⟨rfl, fun hh => h hh.2⟩⟩
+
+/-! ### the whole tick -/
+
+/-- the indications sent at the start of a tick -/
+def tickInds (w : World) (fn : Nat) : List Dgram :=
+  if fn % Gen.World.indPeriod = 0 then
+    w.clkLinks.filterMap (fun i => (w.trxs[i]?).map (fun t =>
+      ⟨t.clckPort, t.addr, t.clckRemote, PyStr.encodeUtf8 (PyStr.lit "IND CLOCK " ++ PyStr.natDigits fn ++ [0])⟩))
+  else []
+
+theorem tick_eq_go {w : World} {fn : Nat} (hr : w.clkRunning = true) (hs : w.clkSrc = some fn) :
+    tick w = tick.go fn w (tickInds w fn) 0 (List.range w.trxs.length) := by
+  unfold tick tickInds
+  simp only [hr, hs, not_true_eq_false, if_false]
+
+theorem tick_stopped {w : World} (hr : w.clkRunning = false) : tick w = { world := w } := by
+  unfold tick; simp [hr]
+
+theorem tick_nosrc {w : World} (hs : w.clkSrc = none) : (tick w).world = w := by
+  unfold tick; split
+  · rfl
+  · simp only [hs]
+
+/-- what a clock tick does to the queues (see `tick_go_spec`) -/
+theorem tick_spec {w : World} {fn : Nat} (hr : w.clkRunning = true) (hs : w.clkSrc = some fn) :
+    ∃ js1 js2, List.range w.trxs.length = js1 ++ js2 ∧
+      (∀ k, runningOf (tick w).world k = runningOf w k) ∧
+      (∀ k, k ∉ js1 → queueOf (tick w).world k = queueOf w k) ∧
+      (∀ k, k ∈ js1 → queueOf (tick w).world k = tickedQueue fn w k) ∧
+      (tick w).stale = (js1.map (staleCount fn w)).sum ∧
+      ((tick w).exc = none → js2 = [] ∧
+        (tick w).world.clkSrc = some ((fn + 1) % Gen.World.hyperframe)) ∧
+      ((tick w).exc ≠ none → (tick w).world.clkSrc = w.clkSrc) := by
+  rw [tick_eq_go hr hs]
+  have := tick_go_spec fn (List.range w.trxs.length) w (tickInds w fn) 0 List.nodup_range
+    (fun k hk => List.mem_range.mp hk)
+  simpa only [Nat.zero_add] using this
+
 /-! ### TRXC commands and power events -/
 
 /-- the transceivers a power event of transceiver `i` (= `self`) acts on -/
